@@ -129,6 +129,21 @@ func (s *objectStore) deleteAll(of Object) {
 	delete(s.m, stype(of))
 }
 
+// uuids returns the uuids of the objects stored for a given type
+func (s *objectStore) uuids(of Object) (uuids []string) {
+	s.RLock()
+	defer s.RUnlock()
+
+	if om, ok := s.m[stype(of)]; ok {
+		om.RLock()
+		defer om.RUnlock()
+		for uuid := range om.m {
+			uuids = append(uuids, uuid)
+		}
+	}
+	return
+}
+
 func (s *objectStore) count(of Object) (n int) {
 	s.RLock()
 	defer s.RUnlock()
@@ -1196,6 +1211,13 @@ func (db *DB) Repair(of Object) (err error) {
 	// we re-index missing objects in index
 	if uuids, err = uuidsFromDir(dir); err != nil {
 		return
+	}
+
+	// an object accepted by an asynchronous write has no file until it is
+	// flushed: it is not missing, it must neither lose its index entry nor
+	// the values it has been accepted with (getByUUID reads it from the cache)
+	for _, uuid := range db.asyncw.uuids(of) {
+		uuids[uuid] = true
 	}
 
 	// we de-index missing objects
